@@ -25,6 +25,9 @@ pub enum Post {
     /// the cache's temp area moves to another filesystem, then the same bytes are stored
     /// through an ordinary write: whatever publishes that content does not touch the target
     WriteSameTmpElsewhere,
+    /// the target is changed (the link reads other bytes now), then the original bytes are stored
+    /// through an ordinary write: that write succeeds and the entry reads back again
+    ModifyThenWriteSame,
 }
 
 #[derive(Clone, Debug, Serialize, Deserialize)]
@@ -81,7 +84,7 @@ impl Engine for C19 {
                         for fl in [Fl::Sync, Fl::Async] {
                             n += 1;
                             let pre_reads = if oneshot { vec![] } else { [vec![], vec![1], vec![7], vec![9, 20000], vec![len + 10], vec![usize::MAX], vec![3, usize::MAX], vec![usize::MAX - 1]][n % 8].clone() };
-                            let post = [Post::None, Post::Modify, Post::Truncate, Post::Remove, Post::Replace, Post::ModifyKeepMtime, Post::WriteSameTmpElsewhere][(n / 2) % 7];
+                            let post = [Post::None, Post::Modify, Post::Truncate, Post::Remove, Post::Replace, Post::ModifyKeepMtime, Post::WriteSameTmpElsewhere, Post::ModifyThenWriteSame][(n / 2) % 8];
                             let mut link = mk_link(if keyed { Some(0) } else { None }, relative, oneshot, ALGOS[n % 5], pre_reads, if n % 3 == 0 { Declare::Exact } else { Declare::None }, if n % 4 == 0 { IntegDecl::Correct } else { IntegDecl::None });
                             // the relative target spelled through a symlinked directory and `..`
                             link.dotdot_via_symlink = relative && (n / 4) % 2 == 1;
@@ -115,7 +118,7 @@ impl Engine for C19 {
             basic::link_spec(1, 1, true),
             gen::fl(),
             (0u8..4, prop::bool::weighted(0.35), prop::bool::weighted(0.2)),
-            prop_oneof![3 => Just(Post::None), 1 => Just(Post::Modify), 1 => Just(Post::Truncate), 1 => Just(Post::Remove), 1 => Just(Post::Replace), 1 => Just(Post::ModifyKeepMtime), 1 => Just(Post::WriteSameTmpElsewhere)],
+            prop_oneof![3 => Just(Post::None), 1 => Just(Post::Modify), 1 => Just(Post::Truncate), 1 => Just(Post::Remove), 1 => Just(Post::Replace), 1 => Just(Post::ModifyKeepMtime), 1 => Just(Post::WriteSameTmpElsewhere), 1 => Just(Post::ModifyThenWriteSame)],
             vec(prop_oneof![Just(1usize), 1usize..9, 9usize..20000], 0..3),
         )
             .prop_map(|(blob, mut link, fl, (cwd_depth, relative, preexisting), post, pre)| {
@@ -296,6 +299,29 @@ impl Engine for C19 {
                         model.step(&ctx, &s, &r.out, r.t0, r.t1).map_err(|e| format!("{what}: ordinary write of the linked bytes with the temp area elsewhere: {e}"))?;
                     }
                     check_target("after an ordinary write of the same bytes (temp area on another filesystem)")?;
+                }
+                Post::ModifyThenWriteSame => {
+                    let mut b = data.to_vec();
+                    if b.is_empty() {
+                        b.push(1);
+                    } else {
+                        let i = b.len() / 2;
+                        b[i] ^= 0x40;
+                    }
+                    std::fs::write(&target, &b).map_err(|e| format!("INFRA: {e}"))?;
+                    let a = Model::addr_of(&ctx, addr);
+                    model.adopt_content(&ctx, &a);
+                    let mut w = WriteSpec::simple(Some(1), 0);
+                    w.entry = WEntry::OneShotAlgo;
+                    w.algo = algo;
+                    let s = Step { op: Op::Write(w), fl: c.fl };
+                    let r = run_step(&ctx, &s);
+                    st.eval(1);
+                    model.step(&ctx, &s, &r.out, r.t0, r.t1).map_err(|e| format!("{what}: the linked file was changed, then the original bytes were written again: {e}"))?;
+                    // the changed file is the user's: the write must not have put the old bytes back into it
+                    if std::fs::read(&target).map(|x| x != b).unwrap_or(true) {
+                        return Err(format!("{what}: an ordinary write of the linked bytes changed the user's (modified) file"));
+                    }
                 }
                 Post::None => {}
             }
